@@ -208,7 +208,8 @@ class MoveDataMixin:
             return data
 
         def _module_to(data: torch.nn.Module) -> torch.nn.Module:
-            if copy:
+            if copy or any(_tensor_to(t) is not t for t in (*data.parameters(), *data.buffers())):
+                # Module._apply works in place: never convert the module owned by the source object
                 data = deepcopy(data)
             return data._apply(_tensor_to, recurse=True)
 
